@@ -1,4 +1,7 @@
 import Falcon.Model.SignFlt
+import Falcon.Lemmas.CompressRefine
+import Falcon.Lemmas.CodecSpec
+import Falcon.Lemmas.KeyCodecStrict
 set_option linter.unusedSimpArgs false
 /-! The sampler-driven recursion of the signing model (`SignFlt.ffsamplingR`, compared byte for byte with the real `sign`)
 is the generic `FfS.ffsampling` — the definition the nearest-plane identity is proved about — fed with the integers the
@@ -70,4 +73,81 @@ theorem ffsamplingR_generic (chk : Bool) (sigmin : Float) : ∀ (tree : Tree C) 
             show _ = _
             simp only [cfops] at e0 ⊢
             rw [e0]
+
+section
+open Falcon.Spec
+theorem compressRef_length (v : List Int) (L : Nat) (x : List Nat) (h : compressRef v L = some x) : x.length = L := by
+  simp only [compressRef, compressBits] at h
+  by_cases hc : v = [] ∨ (encBits v).length > 8 * L
+  · rw [if_pos hc] at h; simp at h
+  · rw [if_neg hc] at h
+    simp only [Option.map_some, Option.some.injEq] at h
+    have hlen : (encBits v ++ List.replicate (8 * L - (encBits v).length) false).length = 8 * L := by
+      simp only [List.length_append, List.length_replicate]; omega
+    subst h
+    exact pack_length L _ hlen
+
+/-- whatever the two retry loops do, a signature returned by the outer loop carries the salt it was started with and a
+    body of exactly the budgeted length -/
+theorem outer_salt (chk : Bool) (cx : Ctx) (salt : List Nat) : ∀ (fuel : Nat) (st : List Nat) (rej retries : Nat)
+    (sig : List Nat) (a b : Nat) (zs : List Int),
+    outer chk cx salt fuel st rej retries = .ok (.ok (sig, a, b, zs)) →
+    ∃ body, sig = KeyCodec.sigToBytes salt body ∧ body.length = cx.budget := by
+  intro fuel
+  induction fuel with
+  | zero => intro st rej retries sig a b zs h; simp [outer] at h
+  | succ fuel ih =>
+    intro st rej retries sig a b zs h
+    rw [outer] at h
+    split at h
+    · simp at h
+    · cases hi : inner chk cx 64 (List.drop 32 st) rej with
+      | panic k => rw [hi] at h; simp at h
+      | ok r =>
+        rw [hi] at h
+        simp only [Res.bind_ok] at h
+        cases r with
+        | exhausted => simp at h
+        | point s2 st' rej' zs' =>
+          simp only at h
+          have hc := Codec.compress_eq_spec s2 cx.budget
+          rw [hc] at h
+          simp only [Res.bind_ok] at h
+          cases ho : compressRef s2 cx.budget with
+          | none => rw [ho] at h; exact ih _ _ _ _ _ _ _ h
+          | some body =>
+            rw [ho] at h
+            simp only [Res.pure_eq, Res.ok.injEq, Except.ok.injEq, Prod.mk.injEq] at h
+            exact ⟨body, h.1.symm, compressRef_length _ _ _ ho⟩
+
+/-- **every signature the model of `sign` returns is well formed**: for both variants, every key, message and generator
+    stream, however many times the norm test or the compression made it retry — it has the variant's fixed size
+    (666 / 1280 bytes), its salt is the first 40 bytes the generator yielded in this call, and `Signature::from_bytes`
+    parses it back into that salt and the compressed body -/
+theorem sign_wellformed (chk : Bool) (N L : Nat) (hNL : (N = 512 ∧ L = 625) ∨ (N = 1024 ∧ L = 1239))
+    (b0 : List (List Int)) (msg stream sig : List Nat) (a b : Nat) (zs : List Int)
+    (h : sign chk N b0 msg stream = .ok (.ok (sig, a, b, zs))) :
+    ∃ body, sig = KeyCodec.sigToBytes (stream.take 40) body ∧ sig.length = 41 + L ∧
+      KeyCodec.sigFromBytes N sig = .ok (.ok (stream.take 40, body)) := by
+  unfold sign at h
+  cases hp : Verify.params N with
+  | panic k => rw [hp] at h; simp at h
+  | ok P =>
+    rw [hp] at h
+    simp only [Res.bind_ok] at h
+    split at h
+    · simp at h
+    · rename_i hlen
+      obtain ⟨body, rfl, hb⟩ := outer_salt chk _ _ _ _ _ _ _ _ _ _ h
+      have hsalt : (stream.take 40).length = 40 := by rw [List.length_take]; omega
+      have hbL : body.length = L := by
+        rw [hb]
+        rcases hNL with ⟨rfl, rfl⟩ | ⟨rfl, rfl⟩
+        · show (if 512 = 512 then Gen.sigBytelen512 else Gen.sigBytelen1024) - Gen.signBudgetSub = 625; decide
+        · show (if 1024 = 512 then Gen.sigBytelen512 else Gen.sigBytelen1024) - Gen.signBudgetSub = 1239; decide
+      refine ⟨body, rfl, ?_, KeyCodec.sig_parse N L _ body hsalt hbL hNL⟩
+      simp [KeyCodec.sigToBytes, hsalt, hbL]; omega
+
+end
+
 end Falcon.SignFlt
